@@ -12,14 +12,14 @@ HARNESSES = [
     bounds='warning-class name: every byte string of <= 8 (quick) / 24 (thorough) bytes; flag and usage-hook presence symbolic; all 78 table entries (concrete table; table loops unwound 80 > 78+1, string loops NAMELEN+3)',
     stubs=['EXPRESSusage/ERRORusage_function: record the call', 'fprintf: empty body'],
     out_of_claim='fedex.c option parsing that calls these (see C04 main gating)',
-    timeout={'quick': 300, 'thorough': 900}),
+    timeout={'quick': 900, 'thorough': 2700}),
   H('setwarn_table', 'c', 'harness/C20/h_setwarn.c', tracked=['src/express/error.c'],
     defs={'NAMELEN': 8, 'TABLE_NAMES': 1}, unwind=81,
     cflags=['-I/repo'], models=['lib/cmodels/printf_null.c'],
     bounds='the class name is that of the k-th entry of the real diagnostics table (k symbolic over all named entries, ERROR-class ones included), flag and usage-hook presence symbolic',
     stubs=['EXPRESSusage/ERRORusage_function: record the call', 'fprintf: empty body'],
     out_of_claim='fedex.c option parsing that calls these (see C04 main gating)',
-    timeout={'quick': 600, 'thorough': 900}),
+    timeout={'quick': 1800, 'thorough': 2700}),
 ] + [
   H('report_m%d_c%d' % (m, c), 'c', 'harness/C20/h_report.c', tracked=['src/express/error.c'],
     defs={'quick': {'ARGLEN': 4, 'VERIF_OUT_CAP': 128, 'VERIF_STR_MAX': 128, 'ONLY_MODE': m, 'ONLY_CODE': c}, 'thorough': {'ARGLEN': 6, 'VERIF_OUT_CAP': 128, 'VERIF_STR_MAX': 128, 'ONLY_MODE': m, 'ONLY_CODE': c}}, unwind=130,   # VERIF_STR_MAX: the buffered modes print the whole stored message through one %s
@@ -28,7 +28,7 @@ HARNESSES = [
            % (m, 'buffered' if m & 1 else 'unbuffered', 'ERRORreport_with_symbol' if m & 2 else 'ERRORreport_with_line', CODES[c]),
     stubs=['vsnprintf/vfprintf/fprintf/fputc: content model lib/cmodels/printf_model.c (diffed against glibc at setup)', 'message buffer: static 4000-byte array instead of malloc(4000); signal() not installed', 'exit/abort not reached (no EXIT-class code in the set)'],
     out_of_claim='semantic diagnostics raised on parser-built ASTs; line-number accuracy; numbers above 255',
-    timeout={'quick': 300, 'thorough': 1800}, mem_gb=30) for m in (0, 1, 2, 3) for c in range(6)
+    timeout={'quick': 900, 'thorough': 3600}, mem_gb=30) for m in (0, 1, 2, 3) for c in range(6)
 ]
 HARNESSES += [
   H('lexsite_encoded_string', 'c', 'harness/C06/h_lexact.c', tracked=['src/express/lexact.c'], cflags=['-I/repo'], models=['lib/cmodels/printf_null.c'],
